@@ -198,7 +198,7 @@ func (d *c20drv) spawn(bin string, sc *scenario, args []string) drvResult {
 
 func (d *c20drv) run(c *verifsim.Chooser, st *Stats, render bool) *Outcome {
 	o := &Outcome{}
-	currentDesc.Store("driver scenario")
+	setDesc("driver scenario")
 	if d.sim == "" {
 		o.violate("C20/harness", "no-driver", "VERIF_DRIVER_SIM is not set")
 		return o
